@@ -21,7 +21,7 @@ statistics coincide unless a string is a digit-less form such as "-" (counterexa
 -/
 import SigModel.Gen.TimeBucket
 import SigModel.Spec.Logs
-import SigModel.Lemmas.C04Sd
+import SigModel.Lemmas.C04Se
 
 namespace SigModel.Props.C04
 open SigModel.Gen SigModel.MachInt
@@ -78,5 +78,256 @@ open SigModel.Spec in
 theorem spec_count_additive (xs ys : List Event) :
     evalAgg (xs ++ ys) .count = .num ((xs.length + ys.length : Nat)) := by
   simp [evalAgg]
+
+end SigModel.Props.C04
+
+/-! ## Kernel slice: running statistics of a measure field and their merge
+
+Model: SigModel/Model/Stats.lean (query-time adders `foldQ`, ingest-time adders `foldI`, `mergeO` = MergeSegStats on one
+column, `derive` = the answers GetSegCount/Sum/Avg/Min/Max give, group-by bucket `foldRB` / `resultRB`).  All theorems
+are for `rnd = exact` (exact float arithmetic) and for EVERY list of values: absent fields, ints, floats, strings.
+Vocabulary (SigModel/Lemmas/C04Se.lean): `numbers vs` = the numeric values as exact rationals (numeric strings included),
+`total` = their mathematical sum, `present vs` = number of events having the field,
+`NoInt64Overflow vs` = Σ|int values| < 2^63, `IsMinOf c xs` = cell `c` holds the least element of `xs` (no number when
+`xs = []`). -/
+namespace SigModel.Props.C04
+open SigModel.Stats SigModel.MachInt
+
+/-- C04.1 `stats_fold_eq_spec`: for every list of values the folded statistics hold exactly the mathematical
+aggregates of the numeric values — count of events having the field, number of numeric values, their sum, least and
+greatest — provided the int64 running sum cannot wrap (the guard; the wrap branch is `stats_fold_int_sum_wraps`). -/
+theorem stats_fold_eq_spec (vs : List Val) (h : NoInt64Overflow vs) :
+    match foldQ exact vs with
+    | none => present vs = 0
+    | some st =>
+      st.count = present vs ∧
+      st.isNumeric = !(numbers vs).isEmpty ∧
+      (match st.num with
+        | none => numbers vs = []
+        | some ns => ns.ncount = (numbers vs).length ∧ ns.sum.toRat = total (numbers vs) ∧ numbers vs ≠ []) ∧
+      IsMinOf st.min (numbers vs) ∧ IsMaxOf st.max (numbers vs) := by
+  rw [foldQ_eq_build]
+  by_cases h0 : present vs = 0
+  · simp [build, h0]
+  · rw [build_of_present_pos _ vs h0]
+    have hmin := minCell_isMin (parseStd exact) vs
+    have hmax := maxCell_isMax (parseStd exact) vs
+    rw [← numbers_eq] at hmin hmax
+    refine ⟨rfl, ?_, ?_, hmin, hmax⟩
+    · rw [numbers_eq]; simp [ratVals]
+    · by_cases he : (nums (parseStd exact) vs).isEmpty
+      · simp only [he, if_true]
+        exact (numbers_nil_iff vs).mpr (List.isEmpty_iff.mp he)
+      · simp only [he]
+        refine ⟨(numbers_length vs).symm, ?_, ?_⟩
+        · rw [sumCell_eq_spec _ h, sumSpec_toRat, numbers_eq, total_ratVals]
+        · intro hn; exact he (by rw [(numbers_nil_iff vs).mp hn]; rfl)
+
+/-- the overflow branch, characterised: as long as no float (or numeric string) has arrived the sum cell is ALWAYS the
+mathematical sum wrapped to int64 — for every list, no guard -/
+theorem stats_fold_int_sum_wraps (vs : List Val) (h : anyFlt (nums (parseStd exact) vs) = false)
+    (hne : nums (parseStd exact) vs ≠ []) :
+    ∃ st ns, foldQ exact vs = some st ∧ st.num = some ns ∧
+      ns.sum = .int (wrapS64 (intSum (nums (parseStd exact) vs))) := by
+  rw [foldQ_eq_build]
+  have h0 : present vs ≠ 0 := by
+    intro h0; exact hne (of_present_zero _ vs h0).1
+  rw [build_of_present_pos _ vs h0]
+  have he : (nums (parseStd exact) vs).isEmpty = false := by
+    cases hx : nums (parseStd exact) vs with
+    | nil => exact absurd hx hne
+    | cons a r => rfl
+  refine ⟨_, ⟨(nums (parseStd exact) vs).length, sumCell (nums (parseStd exact) vs)⟩, rfl, ?_, sumCell_of_ints _ h⟩
+  simp [he]
+
+/-- … so without the guard C04.1 is false: 2^62 + 2^62 is reported as −2^63 -/
+theorem stats_fold_eq_spec_counterexample :
+    ¬ (∀ vs : List Val, ∀ st ns, foldQ exact vs = some st → st.num = some ns → ns.sum.toRat = total (numbers vs)) := by
+  intro hall
+  have h := hall [.int 4611686018427387904, .int 4611686018427387904]
+    ⟨true, 2, .int 4611686018427387904, .int 4611686018427387904, some ⟨2, .int (-9223372036854775808)⟩⟩
+    ⟨2, .int (-9223372036854775808)⟩ (by decide) rfl
+  simp [numbers, Val.number?, total, Num.toRat] at h
+  grind
+
+example : NoInt64Overflow [.int 5, .absent, .flt 3, .str [49, 50], .str [97]] := by decide
+
+/-- C04.3a `avg_eq_sum_div_numeric_count` (no group-by path: GetSegAvg → getAverage(Sum, NumericCount)): the average
+answered is the mathematical sum of the numeric values divided by THEIR number — events lacking the field and text
+values do not enter the denominator; without a numeric value there is no answer. -/
+theorem avg_eq_sum_div_numeric_count (vs : List Val) (h : NoInt64Overflow vs) :
+    (derive exact (foldQ exact vs)).avg =
+      if numbers vs = [] then none else some (.flt (total (numbers vs) / ((numbers vs).length : Rat))) := by
+  rw [foldQ_eq_build]
+  by_cases h0 : present vs = 0
+  · have := (of_present_zero (parseStd exact) vs h0).1
+    simp [build, h0, derive, (numbers_nil_iff vs).mpr this]
+  · rw [build_of_present_pos _ vs h0]
+    by_cases he : (nums (parseStd exact) vs).isEmpty
+    · have hn := List.isEmpty_iff.mp he
+      simp [derive, he, (numbers_nil_iff vs).mpr hn]
+    · have hne : numbers vs ≠ [] := by
+        intro hn; exact he (by rw [(numbers_nil_iff vs).mp hn]; rfl)
+      have hlen : (nums (parseStd exact) vs).length ≠ 0 := by
+        intro hl; exact he (by rw [List.length_eq_zero_iff.mp hl]; rfl)
+      have hs : (sumCell (nums (parseStd exact) vs)).toRat = total (numbers vs) := by
+        rw [sumCell_eq_spec _ h, sumSpec_toRat, numbers_eq, total_ratVals]
+      have hnn : nums (parseStd exact) vs ≠ [] := fun hx => hlen (by rw [hx]; rfl)
+      simp only [derive, he, hne, if_false, Bool.not_false, if_true, Option.bind, Option.map, avgOf]
+      rw [← hs, numbers_length]
+      cases sumCell (nums (parseStd exact) vs) <;> simp [Num.toRat, hnn]
+
+/-- count(x) of the no-group path is the number of events that have the field -/
+theorem count_eq_present (vs : List Val) :
+    (derive exact (foldQ exact vs)).count = if present vs = 0 then none else some (.int (present vs)) := by
+  rw [foldQ_eq_build]
+  by_cases h0 : present vs = 0 <;> simp [build, h0, derive]
+
+/-- C04.2 `merge_hom`: the statistics of a concatenation are the merge of the statistics of its two halves, for every
+split — provided the int64 sum cannot wrap and the left half is not "text only while the right half has a number"
+(`NumFirst`; the excluded class is `merge_hom_counterexample`). -/
+theorem merge_hom (xs ys : List Val) (hov : NoInt64Overflow (xs ++ ys)) (hnf : NumFirst (parseStd exact) xs ys) :
+    mergeO exact (foldQ exact xs) (foldQ exact ys) = foldQ exact (xs ++ ys) := by
+  rw [foldQ_eq_build, foldQ_eq_build, foldQ_eq_build]
+  exact mergeO_build _ xs ys hov hnf
+
+/-- the full statement is FALSE on the real merge: `SegStats.Merge` keeps the IsNumeric flag of its receiver, so a
+first part holding only text makes the merged statistics non-numeric although the second part has the number 5;
+GetSegSum / GetSegAvg then refuse to answer (structs/segstructs.go:834-869, segstatsreader.go:436, 625). -/
+theorem merge_hom_counterexample :
+    ¬ (∀ xs ys : List Val, NoInt64Overflow (xs ++ ys) →
+        mergeO exact (foldQ exact xs) (foldQ exact ys) = foldQ exact (xs ++ ys)) := by
+  intro hall
+  have h := hall [.str [97]] [.int 5] (by decide)
+  have h1 : (mergeO exact (foldQ exact [.str [97]]) (foldQ exact [.int 5])).map (·.isNumeric) = some false := by decide
+  have h2 : (foldQ exact ([.str [97]] ++ [.int 5])).map (·.isNumeric) = some true := by decide
+  rw [h] at h1
+  rw [h1] at h2
+  exact absurd h2 (by decide)
+
+/-- … with the visible consequence: the split loses sum and avg that the unsplit list reports -/
+theorem merge_loses_sum_example :
+    (derive exact (mergeO exact (foldQ exact [.str [97]]) (foldQ exact [.int 5]))).sum = none ∧
+    (derive exact (foldQ exact [.str [97], .int 5])).sum = some (.int 5) := by
+  constructor <;> decide
+
+example : NumFirst (parseStd exact) [.int 1, .str [97]] [.int 5] := by right; left; decide
+example : HasNum [.absent] ∧ HasNum [.str [97], .flt 2] ∧ ¬ HasNum [.str [97]] := by decide
+
+/-- merge is commutative on reachable statistics (neither part text-only) -/
+theorem merge_comm (xs ys : List Val) (hov : NoInt64Overflow (xs ++ ys)) (hx : HasNum xs) (hy : HasNum ys) :
+    mergeO exact (foldQ exact xs) (foldQ exact ys) = mergeO exact (foldQ exact ys) (foldQ exact xs) := by
+  rw [merge_hom xs ys hov (hx.numFirst ys), merge_hom ys xs hov.swap (hy.numFirst xs), foldQ_eq_build, foldQ_eq_build]
+  exact build_comm _ xs ys hov
+
+/-- merge is associative on reachable statistics -/
+theorem merge_assoc (xs ys zs : List Val) (hov : NoInt64Overflow (xs ++ ys ++ zs))
+    (hx : HasNum xs) (hy : HasNum ys) :
+    mergeO exact (mergeO exact (foldQ exact xs) (foldQ exact ys)) (foldQ exact zs) =
+      mergeO exact (foldQ exact xs) (mergeO exact (foldQ exact ys) (foldQ exact zs)) := by
+  have hov' : NoInt64Overflow (xs ++ (ys ++ zs)) := by rw [← List.append_assoc]; exact hov
+  rw [merge_hom xs ys hov.left (hx.numFirst ys), merge_hom (xs ++ ys) zs hov ((hx.append hy).numFirst zs),
+    merge_hom ys zs hov'.right (hy.numFirst zs), merge_hom xs (ys ++ zs) hov' (hx.numFirst _), List.append_assoc]
+
+/-- any segmentation: merging the statistics of the parts of ANY split of the events, batch after batch, gives the
+statistics of the unsplit list (with `merge_comm` / `merge_assoc`: in any order and association, i.e. for any
+parallel schedule) — provided no part is text-only -/
+theorem merge_segmentation (ps : List (List Val)) (hov : NoInt64Overflow ps.flatten) (h : ∀ p ∈ ps, HasNum p) :
+    mergeAll ps = foldQ exact ps.flatten := by
+  induction ps using snocInd with
+  | nil => rfl
+  | append_singleton ps p ih =>
+    have hfl : (ps ++ [p]).flatten = ps.flatten ++ p := by simp
+    rw [hfl] at hov ⊢
+    have hps : ∀ q ∈ ps, HasNum q := fun q hq => h q (List.mem_append_left _ hq)
+    rw [mergeAll_snoc, ih hov.left hps]
+    exact merge_hom _ _ hov ((hasNum_flatten ps hps).numFirst p)
+
+/-- C04.4 `ingest_stats_eq_query_stats`: the ingest-time adders (what the .sst fast path serves) and the query-time
+adders leave the SAME statistics on the same values — numeric strings included — unless some string is a digit-less
+form that FastParseFloat takes for a number ("-", "+", ".", "e5", …: `ingest_stats_counterexample`). -/
+theorem ingest_stats_eq_query_stats (vs : List Val) (h : NoDigitlessForm vs) : foldI exact vs = foldQ exact vs := by
+  rw [foldI_eq_build, foldQ_eq_build]
+  exact build_congr _ _ vs (fun s hs => parseFast_eq_parseStd s (h s hs))
+
+/-- the excluded class is real: the single value "-" (45) is a NUMBER (0) for the ingest-time statistics and text for
+the query-time statistics (utils/numutils.go:29-104 accepts an empty digit string; packer.go:1630) -/
+theorem ingest_stats_counterexample : ¬ (∀ vs : List Val, foldI exact vs = foldQ exact vs) := by
+  intro hall
+  have h := hall [.str [45]]
+  have h1 : (foldI exact [.str [45]]).map (·.isNumeric) = some true := by decide
+  have h2 : (foldQ exact [.str [45]]).map (·.isNumeric) = some false := by decide
+  rw [h] at h1
+  rw [h1] at h2
+  exact absurd h2 (by decide)
+
+/-- the two string rules compute the same VALUE on everything FastParseFloat scans; they differ only in accepting the
+digit-less forms -/
+theorem numeric_string_rules (s : Str) :
+    (HasMantissaDigit s → parseFast exact s = parseStd exact s) ∧
+    (∀ d, scanDec s = some d → d.ip = [] ∧ d.fp = [] → (parseFast exact s).isSome = true ∧ parseStd exact s = none) :=
+  ⟨parseFast_eq_parseStd s, fun d hs h0 => parse_differ_of_no_digit s d hs h0⟩
+
+example : NoDigitlessForm [.str [49, 50], .str [51, 46, 53], .str [97, 98], .int 3, .absent] := by
+  intro s hs
+  simp at hs
+  rcases hs with rfl | rfl | rfl <;> intro d hd <;> simp [scanDec, takeDigits, isDigit] at hd <;> subst hd <;> simp
+
+/-- C04.3b the group-by bucket (`stats avg(x) by g`): for every list of records the bucket counts ALL records and its
+Sum cell is the mathematical sum of the int / float values, so the average it answers is that sum divided by the
+number of RECORDS of the group (blockresult.go:823-826 `sumRawVal / float64(bucket.count)`), and count(x) is the
+number of records (blockresult.go:757). -/
+theorem rb_avg_divides_by_record_count (vs : List Val) (h : absIntSum (nums noParse vs) < 9223372036854775808)
+    (hne : nums noParse vs ≠ []) :
+    ∃ b, foldRB exact vs = some b ∧
+      (resultRB exact b).avg = .flt (ratSum (nums noParse vs) / (vs.length : Rat)) ∧
+      (resultRB exact b).count = vs.length := by
+  rcases foldRB_sum vs h with ⟨hnil, _⟩ | ⟨b, hb, hn, hvne, hs⟩
+  · subst hnil; exact absurd rfl hne
+  · refine ⟨b, hb, ?_, by simp [resultRB, hn]⟩
+    have he : (nums noParse vs).isEmpty = false := by
+      cases hx : nums noParse vs with
+      | nil => exact absurd hx hne
+      | cons a r => rfl
+    have hlen : vs.length ≠ 0 := by intro hl; exact hvne (List.length_eq_zero_iff.mp hl)
+    have hs' : b.sum = (sumSpec (nums noParse vs)).toCV := by rw [hs]; simp [rbSum, he]
+    have hr := sumSpec_toRat (nums noParse vs)
+    simp only [resultRB, hs', hn]
+    cases hsp : sumSpec (nums noParse vs) <;> simp [hsp, Num.toCV, CV.float?, Num.toRat, hlen] at hr ⊢ <;> rw [hr]
+
+/-- the full statement "avg = sum / number of events having x" is FALSE for the group-by bucket: over the two events
+`x = 5` and `x absent` it answers 5/2 and count(x) = 2 -/
+theorem rb_avg_counterexample :
+    ∃ b, foldRB exact [.int 5, .absent] = some b ∧ (resultRB exact b).avg = .flt (5 / 2) ∧ (resultRB exact b).count = 2 ∧
+      (5 : Rat) / 2 ≠ total (numbers [.int 5, .absent]) / ((numbers [.int 5, .absent]).length : Rat) := by
+  obtain ⟨b, hb, ha, hc⟩ := rb_avg_divides_by_record_count [.int 5, .absent] (by decide) (by decide)
+  have e1 : nums noParse [.int 5, .absent] = [.int 5] := rfl
+  have e2 : numbers [.int 5, .absent] = [(5 : Rat)] := rfl
+  refine ⟨b, hb, ?_, by simpa using hc, ?_⟩
+  · rw [ha, e1]; simp [ratSum, Num.toRat, Rat.add_zero]
+  · rw [e2]; simp [total, Rat.add_zero]; grind
+
+/-- partial theorem, dense fields: when every record of the group has a numeric (int / float) x the bucket's average IS
+the mathematical average -/
+theorem rb_avg_partial (vs : List Val) (h : absIntSum (nums noParse vs) < 9223372036854775808) (hne : vs ≠ [])
+    (hdense : (nums noParse vs).length = vs.length) :
+    ∃ b, foldRB exact vs = some b ∧
+      (resultRB exact b).avg = .flt (ratSum (nums noParse vs) / ((nums noParse vs).length : Rat)) := by
+  have hn : nums noParse vs ≠ [] := by
+    intro hx; rw [hx] at hdense; exact hne (List.length_eq_zero_iff.mp hdense.symm)
+  obtain ⟨b, hb, ha, _⟩ := rb_avg_divides_by_record_count vs h hn
+  exact ⟨b, hb, by rw [ha, hdense]⟩
+
+example : (nums noParse [.int 1, .flt 2]).length = [Val.int 1, Val.flt 2].length := by decide
+
+/-- the group-by bucket's min / max over a measure field of mixed type depend on the ORDER of the events: once the cell
+holds a string, `sutils.Reduce` rejects every number (aggutils.go:27-87 returns an error for a string e1, ProcessReduce
+keeps the cell), while a number that came first beats every later string -/
+theorem rb_minmax_order_counterexample :
+    (foldRB exact [.str [97], .int 5]).map (·.min) = some (.str [97]) ∧
+    (foldRB exact [.int 5, .str [97]]).map (·.min) = some (.int 5) ∧
+    (mergeRB exact (foldRB exact [.str [97]]) (foldRB exact [.int 5])).map (·.max) = some (.str [97]) ∧
+    (mergeRB exact (foldRB exact [.int 5]) (foldRB exact [.str [97]])).map (·.max) = some (.int 5) := by
+  decide
 
 end SigModel.Props.C04
